@@ -323,4 +323,59 @@ theorem chk_sim {A0 : Loc → Prop} {K : List Nat} {σ0 τ0 : Store} (s : Stmt) 
       exact (this.set _ _).weaken Adef_cons_of
     · exact absurd hc (by simp)
 
+/-- `chk` succeeds (from any `D`) when every read is of a variable in `K` -/
+theorem okE_of_reads {K D : List Nat} {e : Expr} (h : ∀ ev ∈ eacc e, ev.var ∈ K) :
+    okE K D e = true := by
+  simp only [okE, List.all_eq_true]
+  intro ev hev
+  simp [okEv, h ev hev]
+
+theorem chk_of_reads {K : List Nat} (s : Stmt) :
+    ∀ D, (∀ ev ∈ sacc s, ev.write = false → ev.var ∈ K) → (chk K s D).isSome = true := by
+  induction s with
+  | skip => intro D _; simp [chk]
+  | seq a b iha ihb =>
+    intro D h
+    obtain ⟨D1, hD1⟩ := Option.isSome_iff_exists.mp (iha D (fun ev he => h ev (by simp [sacc, he])))
+    simp only [chk, hD1, Option.bind_some]
+    exact ihb D1 (fun ev he => h ev (by simp [sacc, he]))
+  | assign x e =>
+    intro D h
+    have := okE_of_reads (K := K) (D := D) (e := e)
+      (fun ev he => h ev (by simp [sacc, he]) (eacc_read ev he))
+    simp [chk, this]
+  | store1 a i e =>
+    intro D h
+    have h1 := okE_of_reads (K := K) (D := D) (e := e)
+      (fun ev he => h ev (by simp [sacc, he]) (eacc_read ev he))
+    have h2 := okE_of_reads (K := K) (D := D) (e := i)
+      (fun ev he => h ev (by simp [sacc, he]) (eacc_read ev he))
+    simp [chk, h1, h2]
+  | store2 a i j e =>
+    intro D h
+    have h1 := okE_of_reads (K := K) (D := D) (e := e)
+      (fun ev he => h ev (by simp [sacc, he]) (eacc_read ev he))
+    have h2 := okE_of_reads (K := K) (D := D) (e := i)
+      (fun ev he => h ev (by simp [sacc, he]) (eacc_read ev he))
+    have h3 := okE_of_reads (K := K) (D := D) (e := j)
+      (fun ev he => h ev (by simp [sacc, he]) (eacc_read ev he))
+    simp [chk, h1, h2, h3]
+  | ite c t f iht ihf =>
+    intro D h
+    have h1 := okE_of_reads (K := K) (D := D) (e := c)
+      (fun ev he => h ev (by simp [sacc, he]) (eacc_read ev he))
+    have h2 := iht D (fun ev he => h ev (by simp [sacc, he]))
+    have h3 := ihf D (fun ev he => h ev (by simp [sacc, he]))
+    simp [chk, h1, h2, h3]
+  | loop v lo hi st b ih =>
+    intro D h
+    have h1 := okE_of_reads (K := K) (D := D) (e := lo)
+      (fun ev he => h ev (by simp [sacc, he]) (eacc_read ev he))
+    have h2 := okE_of_reads (K := K) (D := D) (e := hi)
+      (fun ev he => h ev (by simp [sacc, he]) (eacc_read ev he))
+    have h3 := okE_of_reads (K := K) (D := D) (e := st)
+      (fun ev he => h ev (by simp [sacc, he]) (eacc_read ev he))
+    have h4 := ih (v :: D) (fun ev he => h ev (by simp [sacc, he]))
+    simp [chk, h1, h2, h3, h4]
+
 end RegionData
